@@ -563,7 +563,7 @@ def correspond(ctx):
     thr = threshold()
     corpus = corpus_cases()
     short, nalpha, full = gen_short(ctx)
-    longs = gen_long(ctx, ctx.n(400, 6000), thr) + gen_crowded(ctx, ctx.n(120, 1500), thr)
+    longs = gen_long(ctx, ctx.n(400, 6000), thr) + gen_crowded(ctx, ctx.n(360, 3000), thr)
     cases = corpus + short + longs
     ctx.log("generated %d histories (%d corpus, %d short incl. all %d^%d, %d long)" % (len(cases), len(corpus), len(short), nalpha, full, len(longs)))
     failures, st = evaluate(ctx, cases)
